@@ -1,7 +1,7 @@
 (* C05 - every destination receives each source's records in read order, once, filtered records
    absent: property theorems only. *)
 From Verif Require Import Multi.Trace Multi.TraceProofs Multi.Accept Multi.AcceptProofs
-  Multi.SysV2 Multi.SysV2Proofs Stream.SysV1 Stream.SysV1Proofs Stream.Parallel Stream.ParallelW.
+  Multi.SysV2 Multi.SysV2Proofs Stream.SysV1 Stream.SysV1Proofs Stream.Parallel Stream.ParallelW Base.CaseCheck Multi.Check.
 
 Theorem C05_monitor_is_property : forall t log, Mon_C05 t log = true <-> C05_holds t log.
 Proof. exact mon05_sound. Qed.
@@ -79,3 +79,20 @@ Proof. vm_compute. reflexivity. Qed.
 Theorem C05_swap_remove_coordinator_refuted : exists queue, ~ increasing (swap_remove_order queue).
 Proof. exact swap_remove_coordinator_refuted. Qed.
 Print Assumptions C05_swap_remove_coordinator_refuted.
+
+(* ---------- large-batch cases (range form of the log) ---------- *)
+(* what the check of a range-form case decides: bit 1 of its code is clear exactly when C05 holds of
+   the event log the ranges stand for (the acceptor is skipped for these cases: bit 0 is never set) *)
+Theorem C05_range_case_decides_property : forall t l,
+  chk05 (BCase t l) = 0 <-> C05_holds t (expand l).
+Proof.
+  intros t l. cbn [chk05]. rewrite <- mon05_sound. unfold code. cbn [negb].
+  destruct (Mon_C05 t (expand l)); cbn; split; intros H; try reflexivity; try discriminate.
+Qed.
+Print Assumptions C05_range_case_decides_property.
+
+(* the range form expands event by event: a write range is exactly its writes, in index order *)
+Theorem C05_expand_writes : forall d s f n rest,
+  expand (BWrites d s f n :: rest) = map (DestWrite d s) (seq (N.to_nat f) (N.to_nat n)) ++ expand rest.
+Proof. reflexivity. Qed.
+Print Assumptions C05_expand_writes.
